@@ -35,6 +35,11 @@ def main(argv):
                 out["net"].append(hashlib.sha256(
                     json.dumps(common.canon(trace), sort_keys=True).encode()).hexdigest()[:20])
                 out["net_names"].append(name)
+            for i in range(max(150, n)):
+                name, trace = netscen.scenario(random.Random(f"C03-ties:{seed}:{shard}:{i}"), None, ("wfq-ties",))
+                out["net"].append(hashlib.sha256(
+                    json.dumps(common.canon(trace), sort_keys=True).encode()).hexdigest()[:20])
+                out["net_names"].append(name)
     print(json.dumps(out))
 
 
